@@ -5,6 +5,19 @@
 
 namespace primitiv {
 
+namespace {
+
+// Throws when the number of elements does not fit in 32 bits.
+// Both arguments must be less than 2^32.
+void check_size(std::uint64_t volume, std::uint64_t batch) {
+  if (volume * batch > 0xffffffffull) {
+    PRIMITIV_THROW_ERROR(
+        "Shape is too large. volume: " << volume << ", batch: " << batch);
+  }
+}
+
+}  // namespace
+
 Shape::Shape(std::initializer_list<std::uint32_t> dims, std::uint32_t batch)
 : depth_(0), batch_(batch), volume_(1) {
   if (dims.size() > MAX_DEPTH) {
@@ -12,14 +25,18 @@ Shape::Shape(std::initializer_list<std::uint32_t> dims, std::uint32_t batch)
         "Exceeds dimension depth limit at Shape::Shape()."
         " depth: " << depth_ << " > MAX_DEPTH: " << MAX_DEPTH);
   }
+  std::uint64_t volume = 1;
   for (const std::uint32_t d : dims) {
     dims_[depth_++] = d;
-    volume_ *= d;
+    volume *= d;
+    check_size(volume, 1);
   }
+  volume_ = volume;
   while (depth_ > 0 && dims_[depth_ - 1] == 1) --depth_;
   if (volume_ == 0 || batch_ == 0) {
     PRIMITIV_THROW_ERROR("Invalid shape: " << to_string());
   }
+  check_size(volume_, batch_);
 }
 
 Shape::Shape(const std::vector<std::uint32_t> &dims, std::uint32_t batch)
@@ -29,14 +46,18 @@ Shape::Shape(const std::vector<std::uint32_t> &dims, std::uint32_t batch)
         "Exceeds dimension depth limit at Shape::Shape()."
         " depth: " << depth_ << " > MAX_DEPTH: " << MAX_DEPTH);
   }
+  std::uint64_t volume = 1;
   for (const std::uint32_t d : dims) {
     dims_[depth_++] = d;
-    volume_ *= d;
+    volume *= d;
+    check_size(volume, 1);
   }
+  volume_ = volume;
   while (depth_ > 0 && dims_[depth_ - 1] == 1) --depth_;
   if (volume_ == 0 || batch_ == 0) {
     PRIMITIV_THROW_ERROR("Invalid shape: " << to_string());
   }
+  check_size(volume_, batch_);
 }
 
 Shape &Shape::operator=(Shape &&src) {
@@ -93,18 +114,23 @@ void Shape::update_dim(std::uint32_t dim, std::uint32_t m) {
       " dim: " << dim << " >= MAX_DEPTH: " << MAX_DEPTH);
   }
   if (m == 0) PRIMITIV_THROW_ERROR("Could not set each dimension to 0.");
+  const std::uint64_t volume =
+    static_cast<std::uint64_t>(volume_ / operator[](dim)) * m;
+  check_size(volume, 1);
+  check_size(volume, batch_);
   if (dim >= depth_) {
     std::uint32_t new_depth = dim + 1;
     for (std::uint32_t i = depth_; i < new_depth; ++i) dims_[i] = 1;
     depth_ = new_depth;
   }
-  volume_ = (volume_ / dims_[dim]) * m;
+  volume_ = volume;
   dims_[dim] = m;
   while (depth_ > 0 && dims_[depth_ - 1] == 1) --depth_;
 }
 
 void Shape::update_batch(std::uint32_t batch) {
   if (batch == 0) PRIMITIV_THROW_ERROR("Could not set the batch size to 0.");
+  check_size(volume_, batch);
   batch_ = batch;
 }
 
